@@ -29,7 +29,7 @@ PLANS = {
     "C10": [("live", 10, 80)],
     "C13": [("flow", 10, 80), ("snap", 5, 40)],
     "C15": [("snap", 12, 100), ("conf", 2, 20)],
-    "C16": [("prevote", 10, 80), ("checkquorum", 5, 40)],
+    "C16": [("prevote", 6, 80), ("checkquorum", 3, 40), ("lease3", 5, 100), ("lease5", 7, 100)],
     "C17": [("transfer", 10, 80), ("live", 3, 30)],
     "C20": [("core", 2, 15), ("async", 2, 15), ("crashy", 3, 20), ("single", 2, 15), ("shrink", 3, 25), ("flow", 2, 15),
             ("snap", 3, 20), ("conf", 2, 15), ("joint", 2, 15), ("confv1", 2, 15), ("read", 1, 10), ("transfer", 2, 15),
